@@ -11,6 +11,7 @@ func (vc *VC) TranslateLemma(l *Lemma) (sc *Script, err error) {
 	name := "lemma." + l.Name
 	sc = newScript(name)
 	sc.Lemma = l
+	sc.QuickStride = l.QuickStride
 	sc.Splits = l.Splits
 	sc.Pos = fmt.Sprintf("%s:%d", strings.TrimPrefix(l.File, vc.repo+"/"), l.Line)
 	defer func() {
